@@ -23,7 +23,8 @@ EXPLANATION = (
     ' Also: census - every DataFile built in the package carries a checksum, carried-over files are not re-built field by field, every reaching definition of the recorded checksum is a computed digest and a failing read-back fails the append.'
     ' Also in R2: handlers of streaming (generator) helpers of the parsers may not end the stream quietly; in R4: every call of the verifying readers receives the RESOLVED verify flag (argument -> environment -> default ON), also through helpers and closures.'
     ' (R6) who may turn a data file into rows: every Parquet read lies in the two verifying readers or a reasoned list.'
-    ' (R7) the manifest parsers drop no entry; (R8) the checksum functions hash every byte and the verify functions return computed == expected.')
+    ' (R7) the manifest parsers drop no entry; (R8) the checksum functions hash every byte and the verify functions return computed == expected.'
+    ' (R11) who may produce a recorded checksum / size: the function that wrote the file, a copy, or the manifest decoder - never a later re-hash of stored bytes.')
 NOT_DECIDED = ("damage classes that still parse (Avro cut at a block boundary, a sibling file that is valid JSON); "
                "pyarrow's behaviour on corrupt pages when verification is off")
 
@@ -68,6 +69,7 @@ def check(ctx: Ctx) -> None:
     row_sources_sanctioned(ctx)
     parsers_keep_every_entry(ctx)
     hashers_hash_everything(ctx)
+    checksum_producers(ctx)
     # "a broken table is never reported as an empty one": hint-less recovery sees every metadata file only if the listing is complete
     from .c20 import r10_listing_exhaustive
     r10_listing_exhaustive(ctx, "C14.R9")
@@ -83,6 +85,55 @@ ROW_SOURCE_OWNERS: Dict[str, str] = {
     "datashard.data_operations.DataFileManager.read_data_file": "low-level utility (no caller inside the package)",
     "datashard.data_operations.DataFileManager.read_pandas_file": "low-level utility (no caller inside the package)",
 }
+
+
+def checksum_producers(ctx: Ctx, rid: str = "C14.R11") -> None:
+    ctx.rule(rid, "who may produce a recorded checksum (and size): the checksum / file_size_in_bytes of every DataFile built in the "
+             "package is computed by the function that WROTE the file (a data_operations writer, right after its DataFileWriter "
+             "closed), copied from another DataFile, or decoded from a manifest - never re-derived later from the stored bytes (a "
+             "manifest rewrite that re-hashes a survivor records the checksum of whatever damage the file has suffered since, and "
+             "every later read verifies the damage as genuine)", 4)
+    n_sites = 0
+    writers = {f.qname for f in ctx.prog.functions.values() if not isinstance(f.node, ast.Lambda) and f.module.short == "data_operations"
+               and any(c.callee is not None and c.callee.kind == "ctor" and c.callee.cls is not None and c.callee.cls.name == "DataFileWriter"
+                       for c in ctx.cfg(f).calls())}
+    for f in sorted(ctx.prog.functions.values(), key=lambda x: x.qname):
+        if isinstance(f.node, ast.Lambda) or judged_in_callers(ctx, f):
+            continue
+        g = ctx.cfg(f)
+        sites: List[Tuple[Node, str, ast.AST]] = []
+        for n in g.calls():
+            if n.id not in g.reachable() or not isinstance(n.ast, ast.Call):
+                continue
+            is_ctor = n.callee is not None and n.callee.kind == "ctor" and n.callee.cls is not None and n.callee.cls.name == "DataFile"
+            is_replace = (dotted(n.ast.func) or "").split(".")[-1] in ("replace", "_replace")
+            if is_ctor or is_replace:
+                sites += [(n, k.arg, k.value) for k in n.ast.keywords if k.arg in ("checksum", "file_size_in_bytes")]
+        for n in g.nodes:
+            if n.kind == "stmt" and isinstance(n.ast, ast.Assign) and n.id in g.reachable():
+                for t in n.ast.targets:
+                    if isinstance(t, ast.Attribute) and t.attr in ("checksum", "file_size_in_bytes") and not (isinstance(t.value, ast.Name) and t.value.id == "self"):
+                        sites.append((n, t.attr, n.ast.value))
+        owners = {o.qname for o in owner_tops(ctx, f)}
+        for n, field, v in sites:
+            n_sites += 1
+            org = ctx.slicer(f).origins(v, n.id)
+            srcs = [x for x, _a in resolve_value(ctx, f, v, n.id)]
+            copied = any(nm.endswith("." + field) for nm in org["names"]) and not org["calls"] - {c for c in org["calls"] if isinstance(c, ast.Call)
+                                                                                                and isinstance(c.func, ast.Attribute) and c.func.attr in ("get", "int", "str")}
+            copied = copied or all(isinstance(x, ast.Attribute) and x.attr == field for x in srcs) and bool(srcs)
+            deser = any(isinstance(c, ast.Call) and isinstance(c.func, ast.Attribute) and c.func.attr == "get" and c.args
+                        and isinstance(c.args[0], ast.Constant) and c.args[0].value in (field, "file_size_in_bytes", "checksum") for c in org["calls"])
+            at_write = bool(owners) and owners <= writers
+            deser = deser or any(isinstance(x, ast.Subscript) and isinstance(x.slice, ast.Constant) and x.slice.value == field for x in srcs)
+            none = bool(srcs) and all(isinstance(x, ast.Constant) and x.value is None for x in srcs)
+            ok = copied or deser or at_write or none
+            ctx.ob(rid, f, f"{field} of a DataFile has a sanctioned source", n, ok,
+                   ("computed where the file was written" if at_write else "copied / deserialised / absent") if ok else
+                   f"`{norm_text(v)[:60]}` in {f.name} is neither the writer's own measurement, a decoded manifest value nor a copy: a "
+                   "checksum re-derived from stored bytes certifies whatever the file contains now", text=field)
+    if n_sites == 0:
+        raise AnalysisError("no DataFile construction with a checksum found")
 
 
 def row_sources_sanctioned(ctx: Ctx, rid: str = "C14.R6") -> None:
